@@ -7,6 +7,7 @@ import MelModel.ProtoState
 import MelModel.Merkle
 import MelModel.Genesis
 import MelModel.VM.Std
+import MelModel.VM.Cost
 open Mel Mel.VM Mel.Proto
 
 /-! ### VM-level operations -/
@@ -68,10 +69,27 @@ def handleRun (prog heap orc : String) : String :=
       let w := weight ops
       let (res, steps) := runFuel tbl.toOracles ops (weightU ops + 1) (initExec hp.reverse) 0
       let le := if steps ≤ w then 1 else 0
+      -- executed table weight and bytes flattened out of ropes (VM/Cost.lean; theorems in Props/C11Cost.lean)
+      let cost := runCostLine tbl.toOracles ops hp.reverse
       match res with
-      | none => s!"fail steps={steps} w={w} le={le} dbg=1"
-      | some v => s!"ok {valueText v} steps={steps} w={w} le={le} dbg=1"
+      | none => s!"fail steps={steps} w={w} le={le} dbg=1{cost}"
+      | some v => s!"ok {valueText v} steps={steps} w={w} le={le} dbg=1{cost}"
   | _, _, _ => "bad-op"
+
+/-- the heap `Executor::new_from_env` builds for one input of a transaction (value.rs conversions, slot layout):
+    the model's `heapOfEnv`, entries in ascending slot order -/
+def handleEnv (tx cid cdh idx hdr : String) : String :=
+  let cdh? : Option CoinDataHeight := match cdh.splitOn "@" with
+    | [cd, h] => do let cd ← parseCoinData cd; let h ← h.toNat?; some { coinData := cd, height := h }
+    | _ => none
+  match parseTx tx, parseCoinID cid, cdh?, idx.toNat?, parseHeader hdr with
+  | some tx, some cid, some cdh, some idx, some hdr =>
+    let heap := heapOfEnv tx (some { parentCoinID := cid, parentCdh := cdh, spenderIndex := idx, lastHeader := hdr })
+    -- a later binding of a slot shadows an earlier one; print each slot once, ascending
+    let keys := (heap.map (·.1)).eraseDups.mergeSort (fun a b => a ≤ b)
+    let items := keys.filterMap fun k => (Heap.get heap k).map fun v => s!"{k}={valueText v}"
+    "ok " ++ (if items.isEmpty then "-" else ";".intercalate items)
+  | _, _, _, _, _ => "bad-op"
 
 def handleFm (m d t : String) : String :=
   match m.toNat?, d.toInt?, t with
@@ -376,6 +394,7 @@ def handleLine (w : DWorld) (line : String) : DWorld × String :=
   | ["std", which, pk] => (w, handleStd which pk)
   | ["run", p, h, o] => (w, handleRun p h o)
   | ["fm", m, d, t] => (w, handleFm m d t)
+  | ["env", tx, cid, cdh, idx, hdr] => (w, handleEnv tx cid cdh idx hdr)
   | ["reset"] => ({}, "ok")
   | ["mt", name, entries] => handleMt w name entries
   | ["mp", name, key, mode] => (w, handleMp w name key mode)
